@@ -1,16 +1,21 @@
 #!/bin/bash
-# usage: eval_all_seeds.sh [seed-id-pattern]   — runs each seeded change against the check of the property it breaks
-# (scratch worktree, /repo untouched) and rewrites /verif/seeded/RESULTS.tsv: id, property, exit, violations, obligations
-pat=${1:-.}
+# usage: eval_all_seeds.sh [seed-id-pattern] [parallel]  — runs each seeded change against the check of the property it
+# breaks (scratch worktree per seed, /repo untouched) and rewrites /verif/seeded/RESULTS.tsv:
+# id, property, exit, violations, first failed obligations. One retry round (GOVC_ROUNDS=1) tells slow from failing.
+pat=${1:-.}; par=${2:-3}
 out=/verif/seeded/RESULTS.tsv
-tmp=$(mktemp)
-for d in /verif/seeded/C??-*/; do d=${d%/}
-  id=$(basename $d); p=${id%%-*}
-  echo $id | grep -q "$pat" || { grep "^$id	" $out >> $tmp 2>/dev/null; continue; }
-  r=$(/verif/tools/eval_seed.sh $d/patch.diff $id $p | tail -1)
+tmp=$(mktemp -d)
+one() {
+  d=$1; id=$(basename $d); p=${id%%-*}
+  r=$(GOVC_ROUNDS=1 /verif/tools/eval_seed.sh $d/patch.diff $id $p | tail -1)
+  if echo "$r" | grep -q "DOES NOT APPLY"; then printf "%s\t%s\t%s\t%s\t%s\n" "$id" "$p" "-" "-" "patch no longer applies (the function was repaired by a fix commit)"; return; fi
   rc=$(echo "$r" | sed 's/.*exit=\([0-9]*\).*/\1/'); nv=$(echo "$r" | sed 's/.*viol=\([0-9]*\).*/\1/'); ob=$(echo "$r" | sed 's/.*:: //')
-  printf "%s\t%s\t%s\t%s\t%s\n" "$id" "$p" "$rc" "$nv" "$ob" >> $tmp
-  echo "$id exit=$rc viol=$nv"
-done
-sort $tmp > $out; rm -f $tmp
-awk -F'\t' '{n++; if ($3==1) c++} END {print c " of " n " seeded changes detected"}' $out
+  printf "%s\t%s\t%s\t%s\t%s\n" "$id" "$p" "$rc" "$nv" "$ob"
+}
+export -f one
+for d in /verif/seeded/C??-*/; do
+  d=${d%/}; id=$(basename $d)
+  if echo $id | grep -q "$pat"; then echo $d; else grep "^$id	" $out > $tmp/$id.keep 2>/dev/null; fi
+done | xargs -P $par -I{} bash -c 'one {} > '$tmp'/$(basename {}).res; cat '$tmp'/$(basename {}).res | cut -c1-160'
+cat $tmp/*.res $tmp/*.keep 2>/dev/null | sort > $out; rm -rf $tmp
+awk -F'\t' '{n++; if ($3==1) c++; if ($3=="-") o++} END {print c " of " n " seeded changes detected (" o+0 " obsolete)"}' $out
